@@ -125,6 +125,30 @@ func main() {
 		cmdVerify(os.Args[2:])
 	case "check":
 		cmdCheck(os.Args[2:])
+	case "uncovered":
+		e, err := loadEngine("/repo", "/verif/theory")
+		if err != nil {
+			fmt.Fprintln(os.Stderr, err)
+			os.Exit(2)
+		}
+		var names []string
+		for n, f := range e.funcByName {
+			if len(f.Blocks) == 0 || f.Synthetic != "" {
+				continue
+			}
+			if _, ok := e.db.funcs[n]; ok {
+				continue
+			}
+			if e.db.isOpaque(n) || strings.HasSuffix(n, ".init") {
+				continue
+			}
+			names = append(names, n)
+		}
+		sort.Strings(names)
+		for _, n := range names {
+			fmt.Println(n)
+		}
+		fmt.Println(len(names), "functions without contract;", len(e.db.funcs), "contract blocks")
 	case "types":
 		e, err := loadEngine("/repo", "/verif/theory")
 		if err != nil {
